@@ -13,14 +13,64 @@ LEVELS = ["Silenced", "Low", "Normal", "High", "Over"]
 REASONS = ["RUser", "RRollback", "RReplication", "RRandom"]
 REASON_STR = {"": 0, "rollback": 1, "replication_mutation": 2, "random_mutation": 3}
 DRAW_DEFAULT = 32           # what the scripted random.random() returns (in 64ths) once its script is exhausted
-UNKNOWN_GENE = "g99"        # never a gene of a case (names are g0..g7)
+UNKNOWN_GENE = "g99"        # never a gene of a case (names are g0..g7 and other spellings of those)
 MODIFIERS = ["", "why", "inherited", "🧬"]
-CTX_B = [0, 2, 4, 6, 8]
+CTX_B = [0, 2, 4, 6, 8, "g1 ", "G3", " g5"]      # Model.ctx_b
 MAX_GENOMES = 4
 
 
+# ---- gene names ----------------------------------------------------------------
+# A name in a case is an integer i (the plain name "g<i>") or a string (any other spelling, written out literally so
+# that a replay shows it).  To the Genome a name is a dict key: two names are the same gene exactly when they are the
+# same string.  The harness works with the strings; only the observation rows (and the model, which stores a name as
+# the integer Model.name_code of its code points, injective: Proofs.name_code_inj) use the code.
+NAME_BASE = 0x110000
+
+
+def nstr(x):
+    """The name a case element stands for, as the Python str handed to the Genome."""
+    if isinstance(x, bool) or not isinstance(x, (int, str)):
+        raise ValueError(f"not a gene name of a case: {x!r}")
+    return f"g{x}" if isinstance(x, int) else x
+
+
 def gname(i):
-    return f"g{i}"
+    return nstr(i)
+
+
+def ncode(s):
+    """Model.name_code of the code points of s."""
+    if not isinstance(s, str):
+        raise ValueError(f"a gene name that is not a string appeared: {s!r}")
+    if len(s) == 2 and s[0] == "g" and s[1] in "0123456789":
+        return int(s[1])              # "g0" .. "g9" are 0 .. 9
+    z = 0
+    for c in reversed(s):
+        z = z * NAME_BASE + ord(c) + 1
+    return 10 + z
+
+
+def cname(x):
+    if isinstance(x, int) and not isinstance(x, bool) and 0 <= x <= 9:
+        return f"(gn {x})"            # Model.gn i = name_code of "g<i>"
+    return f"(name_code {clist([cz(ord(c)) for c in nstr(x)])})"
+
+
+# other spellings of a plain name p = "g<i>": what a canonicaliser (strip / lower / casefold / NFKC / int()) would
+# identify with p, and what the Genome must treat as a different name
+SPELLINGS = [lambda p: p + " ", lambda p: " " + p, lambda p: p + "\n", lambda p: "\t" + p, lambda p: p.upper(),
+             lambda p: " " + p + " ", lambda p: p + "\u00a0", lambda p: "\uff47" + p[1:], lambda p: "g0" + p[1:],
+             lambda p: p + "\u200b", lambda p: p + ".", lambda p: ""]
+
+
+def respelling_of(s, i):
+    """Is the string s one of the other spellings of the plain name g<i>?"""
+    return any(f(f"g{i}") == s for f in SPELLINGS)
+
+
+def respell(rng, x):
+    """Another spelling of the plain name of x (x itself when it is not a plain name)."""
+    return rng.choice(SPELLINGS)(nstr(x)) if isinstance(x, int) else x
 
 
 def dcode(d):
@@ -29,9 +79,10 @@ def dcode(d):
 
 
 def gid(s):
-    if not (isinstance(s, str) and s.startswith("g") and s[1:].isdigit()):
-        raise ValueError(f"unexpected gene name {s!r}")
-    return int(s[1:])
+    """A name the Genome holds / reports, as the harness keeps it: the string itself."""
+    if not isinstance(s, str):
+        raise ValueError(f"a gene name that is not a string appeared: {s!r}")
+    return s
 
 
 # ---- configuration values ----------------------------------------------------
@@ -115,7 +166,7 @@ def rule_ok(rule, n, old, v, r):
     k = rule[0]
     if k == "match":
         _, g, o, w, rr = rule
-        return ((g is None or g == n) and (pat(o) is None or pat(o) == old) and (pat(w) is None or pat(w) == v)
+        return ((g is None or nstr(g) == n) and (pat(o) is None or pat(o) == old) and (pat(w) is None or pat(w) == v)
                 and (rr is None or rr == r))
     if k == "newmod":
         return vnum(v) % rule[1] == rule[2]
@@ -134,8 +185,12 @@ class C20(Check):
     RUN = "run_case"
     N_QUICK = 800
     N_THOROUGH = 16000
-    RULE = ("a parent genome of 0..5 genes (names from 8 ids, occasionally a duplicate name in the constructor list; one case in "
-            "eight built by Genome.from_dict) over all 5 gene "
+    RULE = ("a parent genome of 0..5 genes (names g0..g7, occasionally a duplicate name in the constructor list, in one case in nine "
+            "a further gene named by another spelling of a gene's name; one case in eight built by Genome.from_dict; about one name "
+            "in seven of the operations, one in ten of the replicate mutation keys, some callback rules and a quarter of the express "
+            "contexts spell a plain name differently: trailing / leading space, newline, tab, no-break or zero-width space, upper "
+            "case, full-width letter, zero-padded digits, trailing dot, the empty string -- to the Genome these are different "
+            "names) over all 5 gene "
             "types x 5 default expression levels, values mostly small integers and about a quarter of the time None / False / True / "
             "'' / '0' / 'None' / 'a' / 0.0 / 1.0 / 0.5 / 0 (initial values, mutate and replication arguments, callback patterns; "
             "values are compared by type and content), allow_mutations both ways, on_mutation in {absent, deny-all, scripted rule lists "
@@ -148,11 +203,13 @@ class C20(Check):
             "validate, list_genes, diff against every relative, get_value / get_gene / express of an unknown gene, "
             "get_statistics, export) called before every observation of every genome in 50%, a modifier / reason string on "
             "30% of the expression calls, callbacks answering with 1/0 or 'yes'/None instead of a bool in 25% of the cases "
-            "with a callback. Exhaustive part: every sequence of 2 (quick) / 3 (thorough) operations from a 16-operation "
-            "alphabet (15 with mutation_rate 0) x 2 allow settings x 3 callbacks on a 2-gene parent whose first gene holds None, "
+            "with a callback. Exhaustive part: every sequence of 2 (quick) / 3 (thorough) operations from an operation "
+            "alphabet -> now 18 operations (17 with mutation_rate 0; two of them address another spelling of a gene's name: "
+            "add_gene('g0 ') and mutate(' g1')) x 2 allow settings x 3 callbacks on a 2-gene parent whose first gene holds None, "
             "and again with mutation_rate 1 (x 4 callbacks; sequences containing a replicate in the quick tier, the scripted "
             "replicate in the thorough tier) and 1/2 (x 2 callbacks, sequences containing the scripted replicate). "
             "non-trivial = at least one mutate/rollback/replicate-with-mutations or re-add reached the gate; distinct by case content")
+    RULE = RULE.replace("alphabet -> now 18 operations", "alphabet of 18 operations")
     LEVEL_TEXT = ("Coq theorems, for all genomes, approval callbacks (arbitrary functions of gene, old value, new value, reason) and "
                   "operation lists of any length over a lineage of any size, about a hand-written model of Genome: with allow_mutations "
                   "off every stored value is the replay of the callback-approved log entries (so nothing changes, hash included, when "
@@ -163,16 +220,22 @@ class C20(Check):
                   "mutate, express is exactly "
                   "the non-silenced non-dormant genes with conditional ones only when named, and rollback re-applies the value preceding "
                   "the last approved mutation and is never a silent no-op once an approved mutation of the gene is logged (values are "
-                  "None / bool / int / float / str, None being a value and not 'nothing recorded'). The model is tied to the code by evaluating it in Coq on every generated lineage history "
+                  "None / bool / int / float / str, None being a value and not 'nothing recorded'; gene names are arbitrary strings, each "
+                  "spelling its own gene: calls made under any other name, padded or re-cased spellings included, never touch a gene's "
+                  "entry, whatever allow_mutations and the callback say). The model is tied to the code by evaluating it in Coq on every generated lineage history "
                   "the implementation ran and comparing return values, exported genes, get_value, hashes, statistics, expressed "
                   "configurations and logs of every genome after every operation.")
-    LEVEL_NOTE = ("Trusts: Coq kernel+VM; the correspondence harness; names/descriptions modelled as integers, values as "
+    LEVEL_NOTE = ("Trusts: Coq kernel+VM; the correspondence harness; names modelled as the integer code of their code points "
+                  "(name_code, proved injective), descriptions as integers, values as "
                   "None/bool/int/finite float/str; md5/json hash "
                   "modelled as the sorted value map (compared for equality only); the callback is a pure function of the proposed "
                   "change; random.random() scripted to k/64 and mutation_rate k/64, the float arithmetic of the random-mutation "
                   "loop modelled by Coq.Floats.SpecFloat (binary64, round to nearest even). Axioms: none (Print Assumptions: closed).")
     TECHNIQUE = "Coq proof by induction over operation lists with a log-replay invariant + vm_compute correspondence against Genome"
-    TRUSTED = ["modelled not verified: gene names and descriptions are integers; values are None, booleans, integers, finite "
+    TRUSTED = ["modelled not verified: a gene name is a str and is stored in the model as one integer, Model.name_code of its code "
+               "points (injective on strings: c20_name_spellings_distinct), so the model's 'same name' is Python's str equality / dict "
+               "key identity (str hashing and equality trusted; names that are not str are not generated); descriptions are "
+               "integers; values are None, booleans, integers, finite "
                "floats (exact fraction; no nan/inf/-0.0) and strings, compared by type and content (containers and other "
                "objects as values are not generated); md5(json(sorted value map)) is modelled "
                "as the sorted value map itself and compared only for equality/inequality (collision freedom of md5 trusted; "
@@ -241,19 +304,27 @@ class C20(Check):
             names = rng.sample(range(8), ng)
             from_dict = ng > 0 and rng.random() < 0.12
             genes = [self._rand_gene(rng, x) for x in names]
+            # one case in nine: a second gene whose name is another spelling of a gene's name ("g3" and "g3 ")
+            if genes and rng.random() < 0.11:
+                genes.insert(rng.randrange(len(genes) + 1), self._rand_gene(rng, respell(rng, rng.choice(names))))
             if from_dict:
                 genes = [[x[0], x[1], 0, -1, 0, 2] for x in genes]
             elif genes and rng.random() < 0.1:
                 genes.insert(rng.randrange(len(genes) + 1), self._rand_gene(rng, rng.choice(names)))
+            names = [x[0] for x in genes]
             allow = rng.random() < 0.3
-            oracle = self._rand_oracle(rng, names)
+            # callbacks that name a gene mostly name a plain one, sometimes another spelling of it
+            oracle = self._rand_oracle(rng, [respell(rng, x) if rng.random() < 0.08 else x for x in names])
             # mutation_rate in 64ths: mostly 0 (the default); else certain, likely, rare, out of range
             rate64 = 0 if rng.random() < 0.55 else rng.choice([64, 64, 64, 32, 32, 48, 16, 1, 63, 96, -8])
             nops = rng.choice([3, 5, 6, 8, 8, 9, 10, 12])
             ops, count, known, touched = [], 1, set(names), {0: []}
             for _ in range(nops):
                 tgt = rng.randrange(count) if rng.random() < 0.6 else count - 1
-                nm = rng.choice(sorted(known)) if known and rng.random() < 0.88 else rng.randrange(8)
+                nm = rng.choice(sorted(known, key=nstr)) if known and rng.random() < 0.88 else rng.randrange(8)
+                # one name in seven is spelled differently (padded, other case, other digits, look-alike, empty)
+                if rng.random() < 0.14:
+                    nm = respell(rng, nm)
                 k = rng.random()
                 mod = [rng.randrange(len(MODIFIERS))] if rng.random() < 0.3 else []
                 if k < 0.28:
@@ -275,22 +346,28 @@ class C20(Check):
                 elif k < 0.71:
                     ops.append([tgt, "activate", nm] + mod)
                 elif k < 0.87 and count < MAX_GENOMES:
-                    pool = sorted(known) + [rng.randrange(8)]
+                    pool = sorted(known, key=nstr) + [rng.randrange(8)]
                     ks = rng.sample(pool, min(len(pool), rng.choice([0, 1, 1, 2, 3])))
                     seen, muts = set(), []
                     for x in ks:
-                        if x not in seen:
-                            seen.add(x)
+                        if rng.random() < 0.1:
+                            x = respell(rng, x)
+                        if nstr(x) not in seen:
+                            seen.add(nstr(x))
                             muts.append([x, self._rand_value(rng, -2, 6)])
                     rep = [tgt, "replicate", muts, int(rng.random() < 0.75)]
                     if rate64 > 0 or rng.random() < 0.1:
                         rep.append(self._rand_draws(rng, len(known)))
                     ops.append(rep)
                     # random mutations may touch any gene of the child: roll those back too
-                    touched[count] = [m[0] for m in muts] + (sorted(known) if rate64 > 0 else [])
+                    touched[count] = [m[0] for m in muts] + (sorted(known, key=nstr) if rate64 > 0 else [])
                     count += 1
                 else:
-                    ops.append([tgt, "express", sorted(rng.sample(range(8), rng.choice([0, 1, 2, 4])))])
+                    ctx = sorted(rng.sample(range(8), rng.choice([0, 1, 2, 4])))
+                    if rng.random() < 0.25:
+                        # the context names other spellings of some genes (conditional ones are not named by those)
+                        ctx += sorted({respell(rng, rng.randrange(8)) for _ in range(rng.choice([1, 2]))})
+                    ops.append([tgt, "express", ctx])
             case = {"allow": allow, "oracle": oracle, "genes": genes, "ops": ops}
             # the knobs below are left out when they have their default value (so older cases mean the same)
             if rate64:
@@ -310,7 +387,8 @@ class C20(Check):
         genes = [[0, None, 0, 0, 1, 2], [1, 5, 3, 1, 0, 2]]
         alphabet = [["mutate", 0, 2], ["mutate", 1, 3], ["mutate", 2, 3], ["rollback", 0], ["rollback", 1],
                     ["mutate", 0, False], ["mutate", 1, None],
-                    ["add", [0, 7, 4, 2, 0, 0]], ["add", [2, 4, 1, 3, 0, 3]], ["silence", 0], ["activate", 0],
+                    ["add", [0, 7, 4, 2, 0, 0]], ["add", [2, 4, 1, 3, 0, 3]], ["add", ["g0 ", 8, 0, 4, 0, 2]],
+                    ["mutate", " g1", 3], ["silence", 0], ["activate", 0],
                     ["setexpr", 1, 3], ["replicate", [[0, 4], [1, 2]], 1], ["replicate", [], 0], ["express", [1]],
                     ["replicate", [[1, 7]], 1, [0, 0, 0, 63, 40, 16]]]
         depth = 2 if self.tier == "quick" else 3
@@ -408,12 +486,12 @@ class C20(Check):
     def _detail(s, frm):
         rows = [[], [], [], [], []]
         for x, lv in zip(s["genes"], s["levels"]):
-            rows[0] += [x[0]] + vcode(x[1]) + x[2:] + [lv]
+            rows[0] += [ncode(x[0])] + vcode(x[1]) + x[2:] + [lv]
         for v, w in s["getvalue"]:
             rows[1] += vcode(v) + vcode(w)
-        rows[2] = [y for k, v in s["expr0"] for y in [k] + vcode(v)]
-        rows[3] = [y for k, v in s["exprb"] for y in [k] + vcode(v)]
-        rows[4] = [y for m in s["log"][frm:] for y in [m[0]] + vcode(m[1]) + vcode(m[2]) + m[3:]]
+        rows[2] = [y for k, v in s["expr0"] for y in [ncode(k)] + vcode(v)]
+        rows[3] = [y for k, v in s["exprb"] for y in [ncode(k)] + vcode(v)]
+        rows[4] = [y for m in s["log"][frm:] for y in [ncode(m[0])] + vcode(m[1]) + vcode(m[2]) + m[3:]]
         return rows
 
     def run_impl(self, case):
@@ -539,7 +617,7 @@ class C20(Check):
             if kind == "replicate":
                 obs.append([1, ret])
             elif kind == "express":
-                obs.append([2] + [y for k, v in ret for y in [k] + vcode(v)])
+                obs.append([2] + [y for k, v in ret for y in [ncode(k)] + vcode(v)])
             else:
                 if not isinstance(ret, bool):
                     raise RuntimeError(f"{kind} returned {ret!r}")
@@ -557,7 +635,7 @@ class C20(Check):
     # -- model input -------------------------------------------------------
     def coq_case(self, case):
         def gene(x):
-            return f"(mkGene {cz(x[0])} {cval(x[1])} {TYPES[x[2]]} {cz(x[3])} {cbool(x[4])} {LEVELS[x[5]]})"
+            return f"(mkGene {cname(x[0])} {cval(x[1])} {TYPES[x[2]]} {cz(x[3])} {cbool(x[4])} {LEVELS[x[5]]})"
 
         def rule(q):
             if q[0] == "match":
@@ -565,7 +643,7 @@ class C20(Check):
 
                 def vp(p):
                     return "None" if p is None else f"(Some {cval(p[0] if isinstance(p, list) else p)})"
-                return f"(RMatch {copt(q[1])} {vp(q[2])} {vp(q[3])} {r})"
+                return f"(RMatch {copt(q[1], cname)} {vp(q[2])} {vp(q[3])} {r})"
             if q[0] == "newmod":
                 return f"(RNewMod {cz(q[1])} {cz(q[2])})"
             return "RGrow"
@@ -575,20 +653,20 @@ class C20(Check):
             if k == "add":
                 t = f"OAdd {gene(o[2])}"
             elif k == "mutate":
-                t = f"OMutate {cz(o[2])} {cval(o[3])}"
+                t = f"OMutate {cname(o[2])} {cval(o[3])}"
             elif k == "rollback":
-                t = f"ORollback {cz(o[2])}"
+                t = f"ORollback {cname(o[2])}"
             elif k == "setexpr":
-                t = f"OSetExpr {cz(o[2])} {LEVELS[o[3]]}"
+                t = f"OSetExpr {cname(o[2])} {LEVELS[o[3]]}"
             elif k == "silence":
-                t = f"OSilence {cz(o[2])}"
+                t = f"OSilence {cname(o[2])}"
             elif k == "activate":
-                t = f"OActivate {cz(o[2])}"
+                t = f"OActivate {cname(o[2])}"
             elif k == "replicate":
-                t = (f"OReplicate {clist([ctuple(cz(n), cval(v)) for n, v in o[2]])} {cbool(o[3])} "
+                t = (f"OReplicate {clist([ctuple(cname(n), cval(v)) for n, v in o[2]])} {cbool(o[3])} "
                      f"{clist([cz(k) for k in (o[4] if len(o) > 4 else [])])}")
             else:
-                t = f"OExpress {clist([cz(n) for n in o[2]])}"
+                t = f"OExpress {clist([cname(n) for n in o[2]])}"
             return ctuple(cnat(i), t)
 
         orc = "None" if case["oracle"] is None else f"(Some {clist([rule(q) for q in case['oracle']])})"
@@ -605,7 +683,7 @@ class C20(Check):
     def _expected_express(s, ctx):
         out = []
         for x, lv in zip(s["genes"], s["levels"]):
-            if lv == 0 or x[2] == 4 or (x[2] == 3 and x[0] not in ctx):
+            if lv == 0 or x[2] == 4 or (x[2] == 3 and x[0] not in [nstr(c) for c in ctx]):
                 continue
             out.append([x[0], x[1]])
         return out
@@ -663,10 +741,16 @@ class C20(Check):
                     return Violation("C20/express-changed-state", f"step {k}: express changed genome {i}")
             # the attempted change of this operation, if it is a mutate in disguise
             attempt = None
-            if kind == "mutate" and op[2] in vb:
-                attempt = (op[2], vb[op[2]], T(op[3]), 0)
-            if kind == "rollback" and op[2] in vb and op[2] in prev[i]:
-                attempt = (op[2], vb[op[2]], prev[i][op[2]], 1)
+            nm = nstr(op[2]) if kind in ("mutate", "rollback") else None
+            if nm is not None and nm not in vb and len(newlog) == 1 and newlog[0][0] in vb:
+                # nothing is stored under exactly this name, but the genome recorded the attempt under one of its
+                # genes (a name it treats as another spelling of it): judged as an attempt on that gene -- the
+                # property asks that it be authorised and logged, not how names are resolved
+                nm = newlog[0][0]
+            if kind == "mutate" and nm in vb:
+                attempt = (nm, vb[nm], T(op[3]), 0)
+            if kind == "rollback" and nm in vb and nm in prev[i]:
+                attempt = (nm, vb[nm], prev[i][nm], 1)
             if kind in ("mutate", "rollback"):
                 if attempt is None:
                     if st["ret"] is not False or a != b:
@@ -676,16 +760,16 @@ class C20(Check):
                     n, old, new, r = attempt
                     authorised = allow or oracle_says(oracle, n, old, new, r)
                     if kind == "rollback" and authorised and st["ret"] is False and not newlog and a == b:
-                        return Violation("C20/rollback-not-performed", f"step {k}: rollback of gene {n} on genome {i} is authorised "
+                        return Violation("C20/rollback-not-performed", f"step {k}: rollback of gene {n!r} on genome {i} is authorised "
                                          f"(allow={allow}, callback approves={oracle_says(oracle, n, old, new, r)}) and the value "
                                          f"preceding the last approved mutation is {new}, but it returned False, logged nothing and "
                                          f"left the value {old}")
                     if st["ret"] is not authorised:
-                        return Violation("C20/gate-wrong", f"step {k}: {op} on genome {i} (change {n}: {old}->{new}, allow={allow}, "
+                        return Violation("C20/gate-wrong", f"step {k}: {op} on genome {i} (change {n!r}: {old}->{new}, allow={allow}, "
                                          f"callback approves={oracle_says(oracle, n, old, new, r)}) returned {st['ret']}")
                     if authorised and va.get(n) != new:
                         if kind == "rollback":
-                            return Violation("C20/rollback-wrong-value", f"step {k}: rollback of gene {n} on genome {i} left value "
+                            return Violation("C20/rollback-wrong-value", f"step {k}: rollback of gene {n!r} on genome {i} left value "
                                              f"{va.get(n)}, the value preceding the last approved mutation was {new}")
                         return Violation("C20/mutation-not-applied", f"step {k}: approved {op} left value {va.get(n)}")
                     if newlog != [[n, old, new, r, int(authorised)]]:
@@ -702,22 +786,22 @@ class C20(Check):
             # no stored value changes unless authorised
             for n, old in vb.items():
                 if n not in va:
-                    return Violation("C20/gene-removed", f"step {k}: {op} removed gene {n} from genome {i}")
+                    return Violation("C20/gene-removed", f"step {k}: {op} removed gene {n!r} from genome {i}")
                 if va[n] != old:
                     ok = False
-                    if kind == "add" and op[2][0] == n and allow:
+                    if kind == "add" and nstr(op[2][0]) == n and allow:
                         ok = True
                     if attempt is not None and attempt[0] == n and (allow or oracle_says(oracle, n, old, va[n], attempt[3])):
                         ok = va[n] == attempt[2]
                     if not ok:
                         return Violation("C20/unauthorised-change", f"step {k}: {op} on genome {i} (allow_mutations={allow}) changed "
-                                         f"gene {n} from {old} to {va[n]} without authorisation")
+                                         f"gene {n!r} from {old} to {va[n]} without authorisation")
             if kind == "add":
-                if op[2][0] in vb and not allow and (st["ret"] is not False or a != b):
-                    return Violation("C20/unauthorised-change", f"step {k}: re-adding gene {op[2][0]} to genome {i} without "
+                if nstr(op[2][0]) in vb and not allow and (st["ret"] is not False or a != b):
+                    return Violation("C20/unauthorised-change", f"step {k}: re-adding gene {nstr(op[2][0])!r} to genome {i} without "
                                      f"allow_mutations returned {st['ret']} / changed state")
             extra = [n for n in va if n not in vb]
-            if extra and not (kind == "add" and extra == [op[2][0]]):
+            if extra and not (kind == "add" and len(extra) == 1):
                 return Violation("C20/unauthorised-change", f"step {k}: {op} on genome {i} created genes {extra}")
             if kind != "add" and [x[:1] + x[2:] for x in a["genes"]] != [x[:1] + x[2:] for x in b["genes"]]:
                 return Violation("C20/gene-attributes-changed", f"step {k}: {op} changed gene attributes other than the value")
@@ -737,6 +821,7 @@ class C20(Check):
                 vc = dict(vb)
                 explog = []
                 for n, v in op[2]:
+                    n = nstr(n)
                     if n not in vc:
                         continue
                     v = T(v)
@@ -762,7 +847,7 @@ class C20(Check):
                 vch = self._vmap(c)
                 for n in vb:
                     if vch[n] != vc[n]:
-                        return Violation("C20/child-differs-unauthorised", f"step {k}: child gene {n} = {vch[n]}, parent {vb[n]}, "
+                        return Violation("C20/child-differs-unauthorised", f"step {k}: child gene {n!r} = {vch[n]}, parent {vb[n]}, "
                                          f"authorised replication result {vc[n]}")
                 if c["log"] != explog:
                     if any(e[4] == 0 for e in explog):
@@ -790,7 +875,7 @@ class C20(Check):
                 return True
             if op[1] == "replicate" and st["after"][-1]["log"]:
                 return True
-            if op[1] == "add" and op[2][0] in self._vmap(st["before"][op[0]]):
+            if op[1] == "add" and nstr(op[2][0]) in self._vmap(st["before"][op[0]]):
                 return True
         return False
 
@@ -803,6 +888,10 @@ class C20(Check):
         ks.append("silent=" + str(bool(case.get("silent", True))))
         ks.append("accessor-probes=" + str(bool(case.get("probes", False))))
         ks.append("constructor=" + ("from_dict" if case.get("from_dict") else "genes" if case["genes"] else "empty"))
+        if any(isinstance(x[0], str) for x in case["genes"]):
+            ks.append("constructor-gene-under-other-spelling" + ("-of-another-gene" if any(
+                isinstance(x[0], str) and any(isinstance(y[0], int) and respelling_of(x[0], y[0]) for y in case["genes"])
+                for x in case["genes"]) else ""))
         if case["oracle"] is not None:
             ks.append("callback-returns=" + ["bool", "int", "str/None"][case.get("cbret", 0)])
         kinds = {"n": "None", "b": "bool", "i": "int", "f": "float", "s": "str"}
@@ -821,6 +910,13 @@ class C20(Check):
                 continue
             kind = op[1]
             tag = kind
+            # operations that spell a name differently from the plain g<i>; "twin": the plain name is a gene of the genome
+            held = {x[0] for x in st["before"][op[0]]["genes"]}
+            for x in ([op[2][0]] if kind == "add" else [op[2]] if kind in ("mutate", "rollback", "setexpr", "silence", "activate")
+                      else [m[0] for m in op[2]] if kind == "replicate" else op[2]):
+                if isinstance(x, str):
+                    twin = any(respelling_of(x, i) and f"g{i}" in held for i in range(8))
+                    ks.append(f"other-spelling:{kind}" + ("-of-a-held-gene" if twin else "") + ("-itself-held" if x in held else ""))
             if kind in ("mutate", "rollback", "add", "setexpr", "silence", "activate"):
                 tag += "=" + str(st["ret"])
             if kind == "replicate":
